@@ -354,7 +354,10 @@ Draw(e, sync) ==
         t1 == Feed(t0, e)
         s0 == [scr EXCEPT !.free = @ \/ resized \/ sync,
                           !.pdef = IF resized THEN [i \in 1..(b1.w * b1.h) |-> scr.def] ELSE @]
-        trusted == scr.trusted \/ sync \/ resized
+        \* the display is known once a draw has written or erased every cell (Sync, a resize, the first draw after
+        \* engage, or any frame that happens to touch them all)
+        allnew == Len(t1.g) > 0 /\ \A i \in 1..Len(t1.g) : t1.g[i].st > t0.stamp
+        trusted == scr.trusted \/ sync \/ resized \/ allnew
         visible == s0.curx >= 0 /\ s0.cury >= 0 /\ s0.curx < b1.w /\ s0.cury < b1.h
         s1 == [NotePaint(s0, t0, t1, b1) EXCEPT !.trusted = trusted,
                    !.eshape = IF visible /\ HasCursorStyles(cfg) THEN s0.cstyle ELSE @,
